@@ -46,8 +46,14 @@ Definition bind {A B : Type} (r : res A) (f : A -> res B) : res B := match r wit
 Notation "'do' x <- a ; b" := (bind a (fun x => b)) (at level 200, x pattern, a at level 100, b at level 200).
 
 (* ---- bytes ------------------------------------------------------------------------------------------------------ *)
-Definition kSpaces (b : N) : bool := nth (N.to_nat b) kSpaces_table false.
-Definition kARPASpaces (b : N) : bool := nth (N.to_nat b) kARPASpaces_table false.
+(* the byte values a regenerated table marks, computed once (tokens can be megabytes long: no unary table walk per byte);
+   ArpaProofs.table_codes_agree: the same function as the table lookup nth (N.to_nat b) table false *)
+Fixpoint codes_of (t : list bool) (i : N) : list N :=
+  match t with [] => [] | true :: r => i :: codes_of r (i + 1) | false :: r => codes_of r (i + 1) end.
+Definition kSpaces_codes : list N := codes_of kSpaces_table 0.
+Definition kARPASpaces_codes : list N := codes_of kARPASpaces_table 0.
+Definition kSpaces (b : N) : bool := existsb (N.eqb b) kSpaces_codes.
+Definition kARPASpaces (b : N) : bool := existsb (N.eqb b) kARPASpaces_codes.
 (* isspace in the C locale; also double-conversion's isWhitespace below 128 *)
 Definition c_isspace (b : N) : bool := (9 <=? b) && (b <=? 13) || (b =? 32).
 Definition is_digit (b : N) : bool := (48 <=? b) && (b <=? 57).
@@ -79,7 +85,12 @@ Fixpoint take_line (s : list N) : list N * option (list N) :=
   | [] => ([], None)
   | c :: r => if c =? 10 then ([], Some r) else let '(l, a) := take_line r in (c :: l, a)
   end.
-Definition strip_cr (l : list N) : list N := match rev l with 13 :: r => rev r | _ => l end.
+(* one trailing carriage return is dropped (linear: lines can be megabytes long) *)
+Fixpoint strip_cr (l : list N) : list N :=
+  match l with
+  | [] => []
+  | c :: r => match r with [] => if c =? 13 then [] else [c] | _ :: _ => c :: strip_cr r end
+  end.
 
 (* ReadLine('\n', strip_cr = true) *)
 Definition read_line (cur : cursor) : res (list N * cursor) :=
